@@ -57,6 +57,9 @@ SCAN_ENS = [
               'self->ruleInfosToScan.ptr[self->ruleInfosToScan.len - 1].ruleInfo == ruleInfo && self->ruleInfosToScan.ptr[self->ruleInfosToScan.len - 1].inputIndex == 0 && '
               'self->ruleInfosToScan.ptr[self->ruleInfosToScan.len - 1].inputRuleInfo == 0 && ruleInfo->result.dependencies.items.len != 0)' % (S, S)),
     ('P:C01', 'ruleInfo->state == OLD(ruleInfo->state) || ruleInfo->state == %sNeedsToRun || ruleInfo->state == %sDoesNotNeedToRun || ruleInfo->state == %sIsScanning' % (S, S, S)),
+    # the answer is "scanned" exactly when the rule is past scanning (this summary is what the input-request step of the engine loop relies on, U-eng-loop)
+    ('P:C01,P:C02', '(RESULT == 0) == (ruleInfo->state == %sIsScanning)' % S),
+    ('P:C01,P:C02', '(RESULT != 0) ==> %s' % SCANNED),
     'self->ruleInfosToScan.len == OLD(self->ruleInfosToScan.len) || self->ruleInfosToScan.len == OLD(self->ruleInfosToScan.len) + 1',
     'ruleInfo->result.dependencies.items.len <= OLD(ruleInfo->result.dependencies.items.len)',
     'ruleInfo->state == OLD(ruleInfo->state) ==> (ruleInfo->inProgressInfo.pendingScanRecord == OLD(ruleInfo->inProgressInfo.pendingScanRecord) && self->ruleInfosToScan.len == OLD(self->ruleInfosToScan.len) && '
